@@ -285,7 +285,8 @@ Definition agrees (t : trace) : bool := agrees_from [] t.
      content (length + digest of the whole stream);
    - if the latest write of the key was refused (quota) or interrupted, a read must not
      succeed;
-   - a read of a key never written must report "not found". *)
+   - a read of a key never written must report "not found";
+   - a write reported as successful is complete and within its quota (write_ok_for). *)
 Definition bkey_eqb (a b : bkey) : bool :=
   match a, b with
   | KPersistent x y z, KPersistent x' y' z' => (x =? x') && (y =? y') && (z =? z')
@@ -317,10 +318,25 @@ Definition read_ok_for (w : bop) (now : Z) (res : robs) : bool :=
   | _ => true
   end.
 
+(* a write reported as successful stored the whole stream the reader delivered, the stream ended
+   normally, and its length is within the quota - whatever the chunking (a quota applied to the
+   chunks one by one would accept an over-quota BLOB) *)
+Definition write_ok_for (w : bop) : bool :=
+  match w with
+  | BWrite _ _ _ _ quota reads e _ _ _ res =>
+      if wo_code res =? 0 then
+        (match quota with Some q => total_len reads <=? q | None => true end)
+        && (wo_size res =? total_len reads)
+        && (match e with EndEOF => true | _ => false end)
+      else true
+  | _ => true
+  end.
+
 Fixpoint satisfies_from (hist : list bop) (t : trace) : bool :=
   match t with
   | [] => true
   | (BWrite _ _ _ _ _ _ _ _ _ _ res as w) :: rest =>
+      write_ok_for w &&
       satisfies_from (if wo_code res =? 2 then hist else w :: hist) rest
   | (BRead now k res as r) :: rest =>
       (match last_write k hist with
